@@ -172,10 +172,10 @@ func (o *obs) verify() {
 	}
 
 	// -- the result is a valid profile with unique ids
+	valid := true
 	if err := p.CheckValid(); err != nil {
+		valid = false
 		o.invalid(err)
-	} else if bf.Function != nil && !denseIDs(bf.Function) {
-		c.Count("sparse-ids/no-collision", 1)
 	}
 
 	// -- mappings that carry symbols are left alone unless forced
@@ -293,6 +293,9 @@ func (o *obs) verify() {
 	}
 	if newFuncs > 0 {
 		c.Nontrivial(o.nontrivialKey())
+		if valid && bf.Function != nil && !denseIDs(bf.Function) {
+			c.Count("sparse-ids/no-collision", 1) // functions added to a table with gaps, ids still unique
+		}
 		if o.w.nPost > 0 && o.w.nSL == 0 {
 			c.Count("attached/remote", 1)
 		} else if o.w.nSL > 0 && o.w.nPost == 0 {
